@@ -175,6 +175,30 @@ def check_register(case, ctx: Ctx):
     exp2 = [by_val[tuple(np.round(np.array(p, dtype=float), 6).tolist())] for p in given]
     if list(back2) != exp2:
         ctx.fail(C, "lookup_given", f"{back2} != {exp2}")
+    # a register built directly with layout= / trap_ids=: either refused or its recorded trap
+    # ids are the ones the layout finds at its qubits' positions (same ids in another order,
+    # or ids shifted by one, must not be recorded as given)
+    if len(ids) >= 2:
+        from pulser import Register, Register3D
+
+        cls = Register3D if case["dim"] == 3 else Register
+        qpos = {nm: np.array(qd[nm].as_array() if hasattr(qd[nm], "as_array") else qd[nm], dtype=float) for nm in names}
+        rot = list(ids[1:]) + [ids[0]]
+        other = [t for t in range(len(coords)) if t not in ids]
+        variants = [("rotated", rot)]
+        if other:
+            variants.append(("other_trap", list(ids[:-1]) + [other[0]]))
+        for what, claim in variants:
+            try:
+                r2 = cls(qpos, layout=lay, trap_ids=tuple(claim))
+            except Exception:  # noqa: BLE001 - refusing is the documented outcome
+                ctx.label("mismatched_trap_ids_refused")
+                continue
+            rec = list(r2._layout_info.trap_ids)
+            found = list(lay.get_traps_from_coordinates(*[qpos[nm] for nm in names]))
+            if rec != found:
+                ctx.fail(C, f"register_with_wrong_trap_ids_accepted:{what}",
+                         f"qubits on traps {found} accepted with trap_ids={claim} (recorded {rec})")
 
 
 @st.composite
